@@ -26,6 +26,7 @@ import (
 	"time"
 
 	"github.com/notaryproject/notation-go"
+	"github.com/notaryproject/notation-go/dir"
 	"github.com/notaryproject/notation-go/registry"
 	"github.com/notaryproject/notation-go/signer"
 	"github.com/notaryproject/notation-go/verifharness/lib"
@@ -130,7 +131,8 @@ func main() {
 	for _, s := range lib.KeySpecs {
 		signers[s] = lib.SimpleChain("c07-"+s, 1, s, 0)
 	}
-	metas := []map[string]string{nil, {}, {"k": "v"}, {"buildId": "101", "commit": "abc", "team": "x", "env": "prod", "n": "5"}, {"ключ": "значение ✓", "emoji": "🚀"}, {"quote\"key": "a\\b\"c", "brace": "{[,:]}", "nl": "line1\nline2", "empty": ""}}
+	metas := []map[string]string{nil, {}, {"k": "v"}, {"buildId": "101", "commit": "abc", "team": "x", "env": "prod", "n": "5"}, {"ключ": "значение ✓", "emoji": "🚀"}, {"quote\"key": "a\\b\"c", "brace": "{[,:]}", "nl": "line1\nline2", "empty": ""},
+		{"com.example.mirror.io.cncf.notary.buildId": "7", "x-io.cncf.notary": "legal: the reserved namespace is a PREFIX", "IO.CNCF.NOTARY.upper": "v", "io.cncf.notar": "y", "io.cncf": "notary"}}
 	mediaTypes := []string{"application/octet-stream", "text/plain; charset=utf-8", "application/vnd.example.thing+json", "application/x-tar; version=1; q=\"a b\""}
 	sizes := []int{0, 1, 63, 64, 65, 4096, 1 << 20}
 	if r.Thorough() {
@@ -378,7 +380,16 @@ func main() {
 			wantAnn[k] = v
 		}
 		want := ocispec.Descriptor{MediaType: artifact.MediaType, Digest: artifact.Digest, Size: artifact.Size, Annotations: wantAnn}
-		vDesc, outs, err := notation.Verify(ctx, v, repo, notation.VerifyOptions{ArtifactReference: ref, MaxSignatureAttempts: 5, UserMetadata: c.Metadata})
+		// the permitted number of attempts is generous, or exactly the number of signatures there are to look at
+		attempts := 5
+		if ci%2 == 1 {
+			attempts = 1
+			if ci%3 == 0 {
+				attempts = 2
+			}
+			r.Event("verified-with-exactly-as-many-attempts-as-signatures")
+		}
+		vDesc, outs, err := notation.Verify(ctx, v, repo, notation.VerifyOptions{ArtifactReference: ref, MaxSignatureAttempts: attempts, UserMetadata: c.Metadata})
 		if err != nil || len(outs) != 1 {
 			r.Violation(sig("verify-failed"), fmt.Sprintf("%s: Verify of the library's own signature failed: %v", id, err), wit)
 			return
@@ -391,6 +402,7 @@ func main() {
 		r.Sample("oci", id)
 	}, r.PanicViolation("sign/verify round trip"))
 	concurrentStreams(r, signers["EC-256"])
+	fromConfig(r, signers["EC-384"])
 	r.RequireAtLeast("blob-round-trips", 72)
 	r.RequireAtLeast("oci-round-trips", 36)
 	r.Finish()
@@ -408,6 +420,78 @@ func (r richRepo) Resolve(ctx context.Context, ref string) (ocispec.Descriptor, 
 		d.Platform = &ocispec.Platform{Architecture: "amd64", OS: "linux"}
 	}
 	return d, err
+}
+
+// fromConfig: the verifiers a CLI builds from the user's directories (three separate directories, as on a real
+// machine): policy documents and trust store live under the configuration directory and nowhere else.
+func fromConfig(r *lib.Run, ent *lib.Ent) {
+	ctx := context.Background()
+	base := lib.TempDir("c07cfg")
+	defer os.RemoveAll(base)
+	dir.UserConfigDir, dir.UserLibexecDir, dir.UserCacheDir = filepath.Join(base, "config"), filepath.Join(base, "libexec"), filepath.Join(base, "cache")
+	for _, d := range []string{dir.UserConfigDir, dir.UserLibexecDir, dir.UserCacheDir} {
+		os.MkdirAll(d, 0o755)
+	}
+	sv := trustpolicy.SignatureVerification{VerificationLevel: "strict", Override: map[trustpolicy.ValidationType]trustpolicy.ValidationAction{trustpolicy.TypeRevocation: trustpolicy.ActionSkip}}
+	os.MkdirAll(filepath.Join(dir.UserConfigDir, "truststore", "x509", "ca", "x"), 0o755)
+	os.WriteFile(filepath.Join(dir.UserConfigDir, "truststore", "x509", "ca", "x", "root.crt"), ent.Root().Cert.Raw, 0o644)
+	od, _ := json.Marshal(lib.OCIPolicy(sv, []string{"ca:x"}, []string{"*"}))
+	bd, _ := json.Marshal(lib.BlobPolicy(sv, []string{"ca:x"}, []string{"*"}))
+	os.WriteFile(filepath.Join(dir.UserConfigDir, dir.PathOCITrustPolicy), od, 0o600)
+	os.WriteFile(filepath.Join(dir.UserConfigDir, dir.PathBlobTrustPolicy), bd, 0o600)
+	sgn, err := signer.NewGenericSigner(ent.Key, ent.Chain())
+	if err != nil {
+		panic(err)
+	}
+	content := []byte("c07 from-config blob")
+	desc := lib.Desc(ocispec.MediaTypeImageManifest, []byte("c07 from-config artifact"))
+	for _, format := range lib.Formats {
+		for _, ctor := range []string{"NewBlobVerifierFromConfig", "NewOCIVerifierFromConfig", "NewFromConfig"} {
+			id := "from-config|" + ctor + "|" + format
+			r.Eval(id)
+			sig := map[string]string{"kind": "verify-failed", "constructor": ctor, "format": format}
+			if ctor == "NewBlobVerifierFromConfig" {
+				sigBytes, _, err := notation.SignBlob(ctx, sgn, bytes.NewReader(content), notation.SignBlobOptions{SignerSignOptions: notation.SignerSignOptions{SignatureMediaType: format}, ContentMediaType: "text/plain", UserMetadata: map[string]string{"k": "v"}})
+				if err != nil {
+					r.Violation(sig, id+": SignBlob failed: "+err.Error(), nil)
+					continue
+				}
+				v, err := verifier.NewBlobVerifierFromConfig()
+				if err != nil {
+					r.Violation(sig, id+": constructor failed over a well-formed configuration directory: "+err.Error(), nil)
+					continue
+				}
+				got, out, err := notation.VerifyBlob(ctx, v, bytes.NewReader(content), sigBytes, notation.VerifyBlobOptions{BlobVerifierVerifyOptions: notation.BlobVerifierVerifyOptions{SignatureMediaType: format, UserMetadata: map[string]string{"k": "v"}}, ContentMediaType: "text/plain"})
+				if err != nil || out == nil || got.Digest != digest.SHA384.FromBytes(content) { // (a P-384 key signs a SHA-384 digest)
+					r.Violation(sig, fmt.Sprintf("%s: the library's own blob signature does not verify under the verifier built from the configuration directory (policy and store trust the signer): %v", id, err), nil)
+					continue
+				}
+			} else {
+				sigBytes, _, err := sgn.Sign(ctx, desc, notation.SignerSignOptions{SignatureMediaType: format})
+				if err != nil {
+					r.Violation(sig, id+": Sign failed: "+err.Error(), nil)
+					continue
+				}
+				var v notation.Verifier
+				if ctor == "NewFromConfig" {
+					v, err = verifier.NewFromConfig()
+				} else {
+					v, err = verifier.NewOCIVerifierFromConfig()
+				}
+				if err != nil {
+					r.Violation(sig, id+": constructor failed over a well-formed configuration directory: "+err.Error(), nil)
+					continue
+				}
+				out, err := v.Verify(ctx, desc, sigBytes, notation.VerifierVerifyOptions{ArtifactReference: "registry.example/repo@" + desc.Digest.String(), SignatureMediaType: format})
+				if err != nil || out == nil {
+					r.Violation(sig, fmt.Sprintf("%s: the library's own signature does not verify under the verifier built from the configuration directory (policy and store trust the signer): %v", id, err), nil)
+					continue
+				}
+			}
+			r.Event("round-trips-through-verifiers-built-from-the-configuration-directory")
+		}
+	}
+	r.RequireAtLeast("round-trips-through-verifiers-built-from-the-configuration-directory", 6)
 }
 
 // concurrentStreams: many blob round trips in flight at once, every blob distinct and presented as a stream without a
